@@ -804,7 +804,7 @@ def gen_gz_case(rng, big=False):
                          'gzip, deflate, br', 'identity;q=0, gzip', 'x-gzip;q=0.5', '*;q=0, gzip;q=0.1'])
     mimes = rng.choice(MIME_SETS)
     ct = rng.choice(CTS)
-    if rng.random() < 0.3:
+    if rng.random() < 0.45:
         ct, mimes = rng.choice(['text/html', 'text/plain']), ['text/html', 'text/plain']
     vary = rng.choice([None, None, None, 'Accept-Encoding', 'Cookie', 'Cookie, Accept-Encoding', 'accept-encoding',
                        'Accept-Language ,  Cookie', ',', '*', 'Accept-EncodingX'])
@@ -860,6 +860,8 @@ def gen_cs_case(rng):
     chunks = gen_text_chunks(rng)
     kind = rng.choice(['str', 'list', 'list', 'gen', 'gen', 'stream'])
     ac = gen_accept(rng, CHARSETS, junk_p=0.05)
+    if ac and rng.random() < 0.35:
+        ac += rng.choice([', utf-8;q=0.1', ', *;q=0.1', ',utf-8;q=0.5', ', utf-16le;q=0.01', ', utf-8'])
     if rng.random() < 0.2:
         ac = rng.choice(['iso-8859-1;q=1, utf-16;q=0.5', '*;q=1, utf-7;q=.2', 'iso-8859-1, *;q=0',
                          'us-ascii, ISO-8859-1, x-mac-ce', 'utf-8', 'ISO-8859-1,utf-8;q=0.7,*;q=0.7',
@@ -871,7 +873,7 @@ def gen_cs_case(rng):
     if rng.random() < 0.5:
         ct = rng.choice(['text/html', 'text/plain'])
     return {'t': 'cs', 'chunks': chunks, 'kind': kind, 'ac': ac, 'forced': forced, 'ct': ct,
-            'text_only': rng.random() < 0.8, 'add_charset': rng.random() < 0.93, 'cl': rng.random() < 0.2}
+            'text_only': rng.random() < 0.8, 'add_charset': rng.random() < 0.96, 'cl': rng.random() < 0.2}
 
 
 def in_known_cs(case):
@@ -1189,7 +1191,7 @@ def run(ctx):
     settle(ctx, [eval_case(dict(c)) for c in corpus_cases()])
     virtual_size_probe(ctx, ctx.rng)
     if ctx.quick():
-        cases = gen_stream(ctx.rng, 1400, 1600, 2500, 400, 250, 10)
+        cases = gen_stream(ctx.rng, 4000, 4000, 5000, 600, 600, 24)
         settle(ctx, [eval_case(c) for c in cases])
     else:
         jobs = [(ctx.rng.getrandbits(48), (2500, 2500, 2500, 300, 300, 6)) for _ in range(80)]
